@@ -158,9 +158,17 @@ def _jsonable(v):
 # (1) responder histories
 
 class ResponderSys:
-    """params: {'variants': [[path, matching, src, recv_port, tmpl], ...],
-                'max': n, 'msgs': [[address, args, sender, via], ...]}
-    via 0 = the main interface, 1 = the second interface (PORT2)."""
+    """params: {'variants': [[path, matching, src, recv_port, tmpl(, shared)],
+                             ...],
+                'max': n, 'msgs': [[address, args, sender, via], ...],
+                'kill': bool}
+    via 0 = the main interface, 1 = the second interface (PORT2).
+    shared: the responder is created with the one function object that all
+    `shared` responders of the system have in common (log entries of that
+    function carry no responder id; they are attributed to the responders that
+    still own it, in the order the reference expects them).
+    kill: the menu offers ['kill', i, j, how]: responder i gets a function that
+    logs and then calls j.free() / j.disable() (at most one such responder)."""
 
     def __init__(self, params, dry=False):
         self.p = params
@@ -177,6 +185,13 @@ class ResponderSys:
         self.ex = seams.Execution()
         self.rs = []
         self.log = []
+        log = self.log
+
+        def shared(msg, time, addr, port):
+            log.append(['S', 0, _jsonable(msg), time,
+                        [getattr(addr, 'hostname', None),
+                         getattr(addr, 'port', None)], port])
+        self.shared_f = shared
 
     # ---- menu (depends on the reference state only) -------------------------
     def ops(self):
@@ -189,6 +204,15 @@ class ResponderSys:
             o += [['enable', i], ['disable', i], ['free', i]]
             if not r.oneshot:
                 o += [['one_shot', i], ['func', i]]
+        if self.p.get('kill') and \
+                not any(r.kills for r in self.ref.rs):
+            for i, r in enumerate(self.ref.rs):
+                if not self.ref.live(i) or r.oneshot:
+                    continue
+                for j in range(len(self.ref.rs)):
+                    if j != i and self.ref.live(j):
+                        o += [['kill', i, j, 'free'],
+                              ['kill', i, j, 'disable']]
         o.append(['cmdp'])
         o += [['msg', k] for k in range(len(self.p['msgs']))]
         return o
@@ -202,6 +226,18 @@ class ResponderSys:
                          getattr(addr, 'port', None)], port])
         return f
 
+    def _cb_kill(self, rid, ver, j, how):
+        log = self.log
+        rs = self.rs
+
+        def f(msg, time, addr, port):
+            log.append([rid, ver, _jsonable(msg), time,
+                        [getattr(addr, 'hostname', None),
+                         getattr(addr, 'port', None)], port])
+            if rs[j] is not None:
+                getattr(rs[j], how)()
+        return f
+
     # ---- one step -------------------------------------------------------------
     def apply(self, op):
         name = op[0]
@@ -209,13 +245,15 @@ class ResponderSys:
         if name == 'msg':
             return self._deliver(op[1])
         if name == 'new':
-            path, matching, src, rport, tmpl = self.p['variants'][op[1]]
-            r = ref.create(path, matching, src, rport, tmpl)
+            var = self.p['variants'][op[1]]
+            path, matching, src, rport, tmpl = var[:5]
+            shared = len(var) > 5 and var[5]
+            r = ref.create(path, matching, src, rport, tmpl, shared)
             if self.dry:
                 return []
             OscFunc = self.env['rsp'].OscFunc
             sid = None if src is None else self.env['NetAddr'](src[0], src[1])
-            f = self._cb(r.rid, 0)
+            f = self.shared_f if shared else self._cb(r.rid, 0)
 
             def call():
                 if matching:
@@ -241,6 +279,8 @@ class ResponderSys:
             ref.one_shot(i)
         elif name == 'func':
             ref.replace_func(i)
+        elif name == 'kill':
+            ref.set_killer(i, op[2], op[3])
         else:
             raise core.HarnessError(f'bad op {op}')
         if self.dry:
@@ -248,6 +288,9 @@ class ResponderSys:
         obj = self.rs[i]
         if obj is None:
             return []
+        if name == 'kill':
+            f = self._cb_kill(i, ref.rs[i].ver, op[2], op[3])
+            return self._guard(op, lambda: setattr(obj, 'func', f))[0]
         if name == 'func':
             f = self._cb(i, ref.rs[i].ver)
             return self._guard(op, lambda: setattr(obj, 'func', f))[0]
@@ -302,9 +345,20 @@ class ResponderSys:
                 raise
             dis.append(('resp-deliver-raises', 'returns',
                         type(e).__name__, str(e)[:200]))
-        obs = self.log[mark:]
+        obs = [list(e) for e in self.log[mark:]]
         errors = [list(x) for x in env['tap'].records]
+        if fired is not None:
+            # entries of the shared function object: attributed to the
+            # responders that still own it, in the order they are expected
+            owners = [f['rid'] for f in fired
+                      if f['shared'] and not f['optional']] + \
+                     [f['rid'] for f in fired if f['shared'] and f['optional']]
+            for e in obs:
+                if e[0] == 'S':
+                    e[0] = owners.pop(0) if owners else 'S+'
         self.last = ['msg', k, [[e[0], e[1]] for e in obs]]
+        if ref.last_optional:
+            self.tainted = True     # resulting state not decided: not extended
         if any(e[3] for e in errors):
             # An exception escaped from a dispatcher: the loop over the *set*
             # OscInterface._recv_functions was aborted, so whether the other
@@ -330,10 +384,16 @@ class ResponderSys:
         seen = set()
         for e in obs:
             rid = e[0]
+            if rid == 'S+':
+                dis.append(('resp-extra-shared-function', exp_ids, obs_ids,
+                            detail))
+                continue
             r = ref.rs[rid]
             if rid not in expd:
                 state_before = r.state
-                if state_before != 'enabled':
+                if rid in ref.last_killed:
+                    kind = 'resp-fired-after-removed-by-callback'
+                elif state_before != 'enabled':
                     kind = 'resp-fired-while-' + state_before
                 elif not ref.path_accepts(r, address):
                     kind = 'resp-extra-matching-path' if r.matching \
@@ -354,7 +414,7 @@ class ResponderSys:
             if got != exp:
                 dis.append(('resp-payload', exp, got, detail))
         for f in fired:
-            if f['rid'] in seen:
+            if f['rid'] in seen or f['optional']:
                 continue
             r = ref.rs[f['rid']]
             shot = [g['rid'] for g in fired
@@ -368,7 +428,9 @@ class ResponderSys:
             else:
                 kind = 'resp-missed'
             dis.append((kind, exp_ids, obs_ids, detail))
-        bad = dispatch_ref.check_order(fired, obs_ids)
+        bad = dispatch_ref.check_order(
+            [f for f in fired if not f['optional'] or f['rid'] in seen],
+            obs_ids)
         if bad:
             g = expd[bad[0][0]]['group']
             dis.append((f'resp-order-{g}', exp_ids, obs_ids,
@@ -381,10 +443,12 @@ class ResponderSys:
         mine = {id(r): i for i, r in enumerate(self.rs) if r is not None}
         out = []
         for d, (bact, _, _) in zip(env['disp'], env['base']['disp']):
-            fmap = {}
+            # the lists of `active` hold wrapped functions or the responders
+            # themselves, depending on the version of the library
+            fmap = dict(mine)
             for px, fn in d.wrapped_funcs.items():
                 if id(px) in mine:
-                    fmap[id(fn)] = mine[id(px)]
+                    fmap.setdefault(id(fn), mine[id(px)])
             bids = {id(fn) for fns in bact.values() for fn in fns}
             act = []
             for path in sorted(d.active):
@@ -393,7 +457,8 @@ class ResponderSys:
                        for fn in d.active[path]]
                 if any(x != 'base' for x in ids):
                     act.append([path, ids])
-            out.append([act, sorted(fmap.values()), bool(d.registered)])
+            out.append([act, sorted(mine[id(px)] for px in d.wrapped_funcs
+                                    if id(px) in mine), bool(d.registered)])
         cp = []
         for fn in env['sac'].CmdPeriod._actions:
             o = getattr(fn, '__self__', None)
@@ -1208,12 +1273,26 @@ def run_fault_case(case):
                     if path == msg[0]:
                         exp_r.append([i, _jsonable(msg), t,
                                       [SENDER[0], SENDER[1]], iface.port])
-            if obs_raw != exp_raw:
-                dis.append(('fault-valid-not-delivered', exp_raw, obs_raw,
-                            detail))
-            elif sorted(obs_r) != sorted(exp_r):
-                dis.append(('fault-valid-responders', sorted(exp_r),
-                            sorted(obs_r), detail))
+            # wire order is demanded among the messages of one time tag;
+            # the statement does not order messages of different tags
+            def by_time(lst):
+                out = {}
+                for x in lst:
+                    out.setdefault(repr(x[1]), []).append(x)
+                return out
+
+            def untimed(lst):
+                return sorted(core.canon(x[:1] + x[2:]) for x in lst)
+            if by_time(obs_raw) != by_time(exp_raw):
+                kind = 'fault-valid-wrong-time' \
+                    if untimed(obs_raw) == untimed(exp_raw) \
+                    else 'fault-valid-not-delivered'
+                dis.append((kind, exp_raw, obs_raw, detail))
+            elif sorted(obs_r, key=core.canon) != \
+                    sorted(exp_r, key=core.canon):
+                dis.append(('fault-valid-responders',
+                            sorted(exp_r, key=core.canon),
+                            sorted(obs_r, key=core.canon), detail))
         # the receiver must still work
         del raw[:]
         del rlog[:]
@@ -1341,6 +1420,14 @@ RESP_PARAMS = {
         'max': 3,
         'msgs': [['/a', [1], A, 0], ['/a', [1], B, 0], ['/a', [2], A, 0],
                  ['/a', [], A, 0]]},
+    # identity: responders that share one function object, and a function
+    # that frees / disables another responder while a message is dispatched
+    'identity': {
+        'variants': [['/a', False, None, None, None, True],
+                     ['/a', False, None, None, None],
+                     ['/a', True, None, None, None, True]],
+        'max': 3, 'kill': True,
+        'msgs': [['/a', [1], A, 0]]},
     # ports: receive port filter, second interface; an ill-formed pattern
     'ports': {
         'variants': [['/a', False, None, None, None],
